@@ -190,6 +190,7 @@ def run(ctx):
     check_generated_slicers(ctx)           # the definitions regenerated from the source (Generated/Slicers.lean) vs the real code
     from .gendefocus import check_generated_defocus; check_generated_defocus(ctx)   # Generated/Defocus.lean vs generate_2d_gaussian / add_defocus_blur
     __import__('harness.props.genobjects', fromlist=['x']).check_loss_objects(ctx)   # regenerated loss OBJECTS vs /repo (work package 13)
+    __import__('harness.props.genobjects_inst', fromlist=['x']).check_loss_instance(ctx)   # multiplane_loss INSTANTIATED with the regenerated slicers, at Float, every call vs /repo (work package 16)
 
 
 def replay(ctx, rep):
